@@ -62,8 +62,23 @@ def unhx(h):
     return b"" if h == "-" else bytes.fromhex(h)
 
 
+# ------------------------------------------------------------------ switches for proposed patches
+# Each constant belongs to ONE patch file under docs/.  False = the patch is not committed in /repo yet: the
+# generator then keeps the operations that need the patched behaviour to texts on which patched and unpatched
+# code agree (the model follows the PATCHED code).  Set to True after committing the patch; nothing else changes.
+PATCH_STRING_VECTOR = True          # docs/C19_string_vector.diff  (element of a text iterator as 'c' vector)
+PATCH_STRING_KEY_SEPARATOR = True   # docs/C19_string_key_separator.diff  (keyword element ending in a separator)
+
 TEXT_KINDS = ("create", "values", "string")
 GRID_KINDS = ("poly", "profile")
+
+
+def mk_sep_case(sep, text, ops):
+    """mpt_iterator_string(text, sep); sep: None (null pointer) or bytes"""
+    if sep is None:
+        return mk_text_case("string", text, ops)
+    arg = (hx(sep) if sep else "-") + ";" + ("n" if text is None else hx(text))
+    return " ".join(["strsep", arg, "-" if text is None else oracle(text)] + list(ops))
 
 
 def mk_text_case(kind, text, ops, grid=None):
@@ -87,7 +102,10 @@ COUNTS = ["0", "1", "2", "3", "4", "5", "7", "10", "12", "30", "39", "40", "41",
           "99999999999999999999", "18446744073709551615", "18446744073709551616", "", "x"]
 GOODCOUNTS = COUNTS[:14]
 MUTCH = "():,; \t\nabxyz0159.-+eE"
-OPS = "vvvaaarckwsVVAARCKWS"
+OPS = "vvvaaarckwsVVAARCKWSzmZ"
+KEY_OPS = "yyyqaaaarcjmzsYYQAARCJZ"
+VEC_OPS = "xxxoaaaarclmzsXXOAARCLZ"
+MIX_OPS = "vyxuqoaaaarckwsjlmzVYXUAARCKWJLZ"
 
 
 def rnd_ops(rng, maxlen=30, alphabet=OPS):
@@ -275,6 +293,79 @@ def gen_string(rng):
     return s + rng.choice(["", "", "", " ", "  ", "   ", ",", " x", "x"])
 
 
+WORDS = ["ab", "c", "key", "xyz", "q", "12", "7", "345", "0"]
+SEPS = [None, None, None, b"", b":", b",;", b" ", b": ", b"=", b"\t,", b"b", b" ,;/:"]
+
+
+def gen_wordtext(rng, need_vec, need_key):
+    """text for keyword / vector reads; returns (sep, text)"""
+    sep = rng.choice(SEPS)
+    n = rng.choice([1, 2, 2, 3, 3, 4, 6])
+    strict = need_vec and not PATCH_STRING_VECTOR                      # words, one blank behind each
+    blanks = not strict and need_key and not PATCH_STRING_KEY_SEPARATOR  # no separator characters
+    full = not strict and not blanks
+    s = ""
+    if not strict and rng.random() < 0.2:
+        s = rng.choice([" ", "  ", ",", "\t"]) if full else rng.choice([" ", "  ", "\t"])
+    for i in range(n):
+        if i:
+            s += (rng.choice([" ", " ", ",", ";", "/", ":", "  ", " ,", ", ", "\t", "=", ";;", " : "]) if full else
+                  rng.choice([" ", " ", "  ", "\t", "\n "]) if blanks else " ")
+        s += (rng.choice(WORDS + ["1.5", "a-b", "-3", "1e3", "x1", "1x", "nan", ""]) if full else
+              rng.choice(WORDS + ["1.5", "a-b", "-3", "1e3", "x1", "1x", "nan"]) if blanks else rng.choice(WORDS))
+    s += (rng.choice(["", "", " ", "  ", ",", " ,", ";", "\n"]) if full else
+          rng.choice(["", "", " ", "  ", "\n"]) if blanks else " ")
+    if full and rng.random() < 0.15:
+        s = mutate(rng, s).replace("\0", "")
+    if blanks and sep and any(ch in s.encode() for ch in sep.replace(b" ", b"").replace(b"\t", b"")):
+        sep = None
+    return sep, s.encode()
+
+
+def restrict_unpatched(sep, text, ops):
+    """while a patch is not committed: keep the operations that need it to texts on which the patched and the
+    unpatched code agree (see the switches at the top); returns (sep, ops)"""
+    o = "".join(ops).lower()
+    vec = any(c in o for c in "xol")
+    key = any(c in o for c in "yqj")
+    if vec and not PATCH_STRING_VECTOR:
+        # every position a history can reach must be followed by a word and a blank inside the text:
+        # words of WORDS separated and followed by exactly one blank, separators that do not occur in the text
+        if not re.fullmatch(rb"((ab|c|key|xyz|q|[0-9]+) )+", text):
+            ops = [c for c in ops if c.lower() not in "xol"] or ["a"]
+        if sep is not None and re.search(rb"[0-9a-z]", sep):
+            sep = None
+    if key and not PATCH_STRING_KEY_SEPARATOR:
+        eff = b" ,;/:" if sep is None else sep
+        if any(ch in text for ch in eff.replace(b" ", b"").replace(b"\t", b"")):
+            ops = [c for c in ops if c.lower() not in "yqj"] or ["a"]
+    return sep, ops
+
+
+def gen_rset(rng):
+    r = rng.random()
+    if r < 0.45:
+        sk = rng.choice(["string", "values"])
+        n = rng.choice([0, 1, 2, 2, 3, 4])
+        t = rng.choice([" ", " ", ","] if sk == "string" else [" "]).join(num(rng, 0.9) for _ in range(n))
+        if rng.random() < 0.2:
+            t = gen_string(rng) if sk == "string" else gen_vals(rng)
+        t = t.encode() or b" "
+        return " ".join(["rset", "it;%s;%s" % (sk, hx(t)), oracle(t)] + pick_ops(rng)[:8])
+    if r < 0.5:
+        return "rset itn -"
+    if r < 0.85:
+        n = rng.choice([0, 1, 2, 2, 2, 3])
+        nb = rng.choice([8 * n, 8 * n, 8 * n, 8 * n + 1, 8 * n + 7, max(0, 8 * n - 1), max(0, 8 * n - 8)])
+        ds = ",".join(dpool(rng) for _ in range(n)) or "-"
+        return "rset vec;%d;%s -" % (nb, ds)
+    if r < 0.92:
+        return "rset vecb;%d -" % rng.choice([0, 8, 15, 16, 17, 23, 24, 32])
+    if r < 0.95:
+        return "rset vecn -"
+    return "rset type;%s -" % rng.choice("sd")
+
+
 def gen_buffer(rng):
     n = rng.choice([0, 1, 1, 2, 3, 3, 4])
     b = b""
@@ -357,6 +448,25 @@ class C19(DiffProperty):
     assumptions = ["malloc succeeds", "texts contain no byte >= 0x80 (the C code passes plain char to isspace)",
                    "|b-a| does not overflow binary64 and (b-a)/n is not subnormal where the closed form is compared"]
 
+    # corpus files named patched_<switch>.cases hold cases that need the proposed patch
+    def corpus(self):
+        import os
+        d = os.path.join(os.path.dirname(os.path.dirname(os.path.abspath(__file__))), "corpus", self.pid)
+        skip = set()
+        if not PATCH_STRING_VECTOR:
+            skip.add("patched_string_vector.cases")
+        if not PATCH_STRING_KEY_SEPARATOR:
+            skip.add("patched_string_key_separator.cases")
+        cs = []
+        for f in sorted(os.listdir(d)):
+            if f in skip or not f.endswith(".cases"):
+                continue
+            for line in open(os.path.join(d, f)):
+                line = line.strip()
+                if line and not line.startswith("#"):
+                    cs.append(line)
+        return cs
+
     # ---- case structure
     def split(self, case):
         t = case.split()
@@ -379,11 +489,19 @@ class C19(DiffProperty):
         if tok.startswith("Q:"):
             p = tok.split(":")
             return "Q:-" if int(p[1]) < 0 else "Q:+:" + p[2].split("/")[0]
-        if tok.startswith("W:"):
+        if tok[:2] in ("W:", "J:", "H:"):
             p = tok.split(":")
             e = p[2]
             e = e[0] if e[0] in "Ee" else e
             return ":".join([p[0], p[1], e, p[3]])
+        if tok[:2] in ("Y:", "X:"):
+            p = tok.split(":")
+            return p[0] + ":-" if int(p[1]) < 0 else p[0] + ":" + p[2]
+        if tok[:3] in ("Yn:", "Xn:"):
+            return tok[:3] + ("-" if int(tok[3:]) < 0 else "+")
+        if tok.startswith("Z:"):
+            n = int(tok[2:])
+            return "Z:+" if n > 0 else ("Z:0" if n == 0 else "Z:-")
         return tok
 
     @staticmethod
@@ -425,6 +543,8 @@ class C19(DiffProperty):
                 continue
             if b == "A:<=0" and a in ("A:0", "A:-"):
                 continue
+            if b == "Z:<=0" and a in ("Z:0", "Z:-"):
+                continue
             if a != b:
                 r["spec"] = (j, a, b)
                 break
@@ -439,8 +559,24 @@ class C19(DiffProperty):
         hdr, ops = self.split(case)
         cl = {"kind:" + hdr[0]}
         o = "".join(x[0] for x in ops)
-        if not o and hdr[0] not in ("vlin", "vbound"):
+        if not o and hdr[0] not in ("vlin", "vbound", "rset"):
             return set()
+        if hdr[0] == "rset":
+            cl.add("rset:" + hdr[1].split(";")[0])
+            return cl
+        if hdr[0] in ("string", "strsep"):
+            lo = o.lower()
+            for name, letters in (("read-key", "yqj"), ("read-vector", "xol"), ("read-uint", "u")):
+                if any(c in lo for c in letters):
+                    cl.add(name)
+            if hdr[0] == "strsep":
+                cl.add("separators:" + hdr[1].split(";")[0])
+        if "m" in o.lower() and hdr[0] in ("string", "strsep", "buffer", "args"):
+            cl.add("metatype-conversions:" + hdr[0])
+        if "z" in o.lower():
+            cl.add("skip")
+        if hdr[0] in ("buffer", "args") and ("k" in o.lower() or "w" in o.lower()):
+            cl.add("buffer-as-number")
         if "c" in o or "C" in o:
             cl.add("clone")
         if "r" in o or "R" in o:
@@ -491,6 +627,15 @@ class C19(DiffProperty):
                     if hdr[0] == "profile" and t2.strip().lower().startswith(b"file"):
                         continue
                     yield mk_text_case(hdr[0], t2, flat, parts[1] if len(parts) > 1 else None)
+        if hdr[0] == "strsep":
+            sp, tx = hdr[1].split(";")
+            if tx != "n":
+                t = unhx(tx)
+                for i in range(len(t)):
+                    t2 = t[:i] + t[i + 1:]
+                    yield " ".join(["strsep", sp + ";" + hx(t2), oracle(t2)] + flat)
+        if hdr[0] in TEXT_KINDS + GRID_KINDS:
+            parts = hdr[1].split(";")
             if len(parts) > 1 and "," in parts[1]:
                 g = parts[1].split(",")
                 for i in range(len(g)):
@@ -506,6 +651,16 @@ class C19(DiffProperty):
             for o in CANNED:
                 cases.append(mk_text_case("create", d.encode(), o))
         cases.append(mk_text_case("create", None, list("wrwc" "W")))
+        # text iterator read as keywords / vectors / mixed; metatype conversions and numbers-from-buffers
+        for d in [b"ab cd ef ", b"12 7 "]:
+            for o in ["jrj", "lrl", "yaxauaz", "mcMzZ", "xacXALrx", "qaoasaya", "ycYAJ"]:
+                cases.append(mk_sep_case(None, d, list(o)))
+        cases.append(mk_sep_case(b"", b"a b:c d", list("jrycYAJ")))
+        for k, b in [("buffer", b"ab\0cd\0"), ("args", b"ab\0cd\0"), ("args", b"abc"), ("buffer", b"12\0t"), ("args", b"x\0")]:
+            cases.append(" ".join([k, hx(b), "-"] + list("mkwzmazcMKWZ")))
+        cases += ["buffer n - m z k w", "args n - m z k w", "rset itn -", "rset vecn -", "rset vecb;16 -",
+                  "rset vec;16;3ff0000000000000,4000000000000000 -", "rset vec;24;3ff0000000000000,4000000000000000,4008000000000000 -",
+                  "rset type;s -", "rset type;d -"]
         for i in range(n):
             r = rng.random()
             ops = pick_ops(rng)
@@ -513,9 +668,21 @@ class C19(DiffProperty):
                 cases.append(mk_text_case("create", gen_create(rng).encode(), ops))
             elif r < 0.46:
                 cases.append(mk_text_case("values", gen_vals(rng).encode() if rng.random() < 0.95 else None, ops))
-            elif r < 0.56:
+            elif r < 0.50:
                 t = gen_string(rng).encode() if rng.random() < 0.97 else None
                 cases.append(mk_text_case("string", t, ops))
+            elif r < 0.56:
+                # text iterator read as keywords / 'c' vectors / everything mixed, with separator configurations
+                mode = rng.choice(["key", "key", "vec", "vec", "mix"])
+                alphabet = {"key": KEY_OPS, "vec": VEC_OPS, "mix": MIX_OPS}[mode]
+                ops = rnd_ops(rng, 30, alphabet)
+                if rng.random() < 0.06:
+                    sep, t = rng.choice(SEPS), rng.choice([None, b"", b" ", b"  "])
+                else:
+                    sep, t = gen_wordtext(rng, mode != "key", mode != "vec")
+                if t is not None:
+                    sep, ops = restrict_unpatched(sep, t, ops)
+                cases.append(mk_sep_case(sep, t, ops))
             elif r < 0.62:
                 ln = rng.choice([0, 1, 2, 2, 3, 4, 5, 7, 40, 41, 1000, 2147483648, 4294967295])
                 cases.append(" ".join(["linear", "%d,%s,%s" % (ln, dpool(rng), dpool(rng)), "-"] + ops))
@@ -552,6 +719,8 @@ class C19(DiffProperty):
                 if not t:
                     t = rng.choice([b" ", b"  ", b"3  ", b"3 0  1"])
                 cases.append(" ".join(["from", "%s;%s;%s" % (ctor, sk, hx(t)), oracle(t)] + ops))
+            elif r < 0.985:
+                cases.append(gen_rset(rng))
             else:
                 pts = rng.choice([-1, 0, 1, 2, 3, 4, 6])
                 ld = rng.choice([1, 1, 2, 3])
